@@ -199,9 +199,13 @@ class MLIRTokenKind(Enum):
         """
         if self != MLIRTokenKind.INTEGER_LIT:
             raise ValueError("Token is not an integer literal!")
-        if span.text[:2] in ["0x", "0X"]:
-            return int(span.text, 16)
         try:
+            if span.text[:2] in ["0x", "0X"]:
+                value = int(span.text, 16)
+                # The value must also be convertible back to a decimal string
+                # (printing, diagnostics)
+                str(value)
+                return value
             return int(span.text, 10)
         except ValueError:
             # Python refuses to convert decimal strings beyond a digit limit
